@@ -175,7 +175,9 @@ func ScanSnapshot(in io.Reader, prefix io.Writer, opts *Opts) (*Snapshot, []byte
 	for err == nil && s.state != done {
 		var d []byte
 		if d, err = r.readLine(); len(d) != 0 {
+			verifBefore := s.state
 			l, err1 := s.scan(d)
+			verifTrace(in, verifBefore, s.state, d, l, err1)
 			if err1 != nil && (err == nil || err == io.EOF) {
 				err = err1
 			}
